@@ -62,8 +62,11 @@ def rand_image(rng, mode, h, w, frac_undef):
     elif mode in ("F32", "F64"):
         a = rng.normal(size=(h, w)).astype(tilegen.DT[mode])
         a[rng.random((h, w)) < frac_undef] = np.nan
-        if rng.random() < 0.3:
+        k = rng.random()
+        if k < 0.2:
             a[rng.random((h, w)) < 0.05] = np.inf
+        elif k < 0.35:
+            a[~np.isnan(a)] = np.inf * rng.choice([-1, 1])  # defined pixels, none of them finite
     else:
         dt = tilegen.DT[mode]
         a = rng.integers(0, min(np.iinfo(dt).max, 30000), (h, w)).astype(dt)
@@ -81,6 +84,14 @@ def rand_rect(R, sh, sw, bh, bw):
     iy, ix = slice(sy, sy + h), slice(sx, sx + w)
     if h == sh and sy == 0 and R.random() < 0.5:
         iy = slice(None)
+    k0 = R.random()
+    if k0 < 0.15 and sh >= bh:
+        # full buffer height, partial width (the right-edge tile of an image whose height is a whole number of tiles)
+        h, sy, by = bh, R.randrange(0, sh - bh + 1), 0
+        iy = slice(sy, sy + h)
+    elif k0 < 0.3 and sw >= bw:
+        w, sx, bx = bw, R.randrange(0, sw - bw + 1), 0
+        ix = slice(sx, sx + w)
     kind = R.choice(["plain", "plain", "flip", "none"])
     if kind == "flip":
         y1 = by + h - 1
